@@ -170,10 +170,12 @@ BasisShapeOK(lp, cstat, rstat) ==
   /\ Cardinality({j \in 1..lp.n : cstat[j] = "1"}) + Cardinality({i \in 1..lp.m : rstat[i] = "1"}) = lp.m
 \* the nonbasic variables sit where their status says (set of offending [c, k])
 NonbasicAtStatus(lp, cstat, rstat, xs) ==
+  \* (a non-basic FIXED column, lower = upper, has the value of its bounds whichever non-basic label it carries)
   {[c |-> "nonbasic column not at its status bound", k |-> j] : j \in {j \in 1..lp.n :
-       \/ (cstat[j] = "0" /\ ~(Fin(lp.lo[j]) /\ xs[j] = lp.lo[j]))
-       \/ (cstat[j] = "2" /\ ~(Fin(lp.up[j]) /\ xs[j] = lp.up[j]))
-       \/ (cstat[j] = "3" /\ xs[j] # Z)}}
+       IF cstat[j] # "1" /\ Fin(lp.lo[j]) /\ lp.lo[j] = lp.up[j] THEN xs[j] # lp.lo[j]
+       ELSE \/ (cstat[j] = "0" /\ ~(Fin(lp.lo[j]) /\ xs[j] = lp.lo[j]))
+            \/ (cstat[j] = "2" /\ ~(Fin(lp.up[j]) /\ xs[j] = lp.up[j]))
+            \/ (cstat[j] = "3" /\ xs[j] # Z)}}
   \cup {[c |-> "nonbasic row logical not at its status bound", k |-> i] : i \in {i \in 1..lp.m :
        \/ (rstat[i] = "0" /\ LogVal(lp, xs, i) # Z)
        \/ (rstat[i] = "2" /\ ~(Fin(LogUp(lp, i)) /\ LogVal(lp, xs, i) = LogUp(lp, i)))}}
